@@ -76,7 +76,7 @@ def odd_xy_meshes():
   return out
 
 
-_TREF_KINDS = ('random', 'cooling', 'linear', 'isothermal_top', 'plateau_cooling', 'tropopause')
+_TREF_KINDS = ('random', 'cooling', 'linear', 'isothermal_top', 'plateau_cooling', 'tropopause', 'bump')
 
 
 def _tref_kind(case):
